@@ -224,3 +224,132 @@ Section MultiLineFast.
     = w_out w ++ block_records (line_spans (lt_byte (e_lt env)) (k_bytes sk)) 0 (k_off sk).
   Proof. apply sink_fast_ml_loop_layout. Qed.
 End MultiLineFast.
+
+(* line-oriented --only-matching and per-match (--vimgrep) output: one record per recorded span *)
+Section PerMatch.
+  Variable cfg : stdconfig.
+  Variable env : senv.
+  Variable path : option bytes.
+  Variable sk : sunk.
+
+  (* the record of span m: offset and column are those of the span; the text is the span (-o) or the line *)
+  Definition span_record (only : bool) (m : nat * nat) : bytes :=
+    prelude_spec cfg path (separator_field cfg sk) (k_off sk + fst m) (k_lnum sk) (Some (fst m + 1))
+    ++ terminated (e_lt env) (if only then sub (k_bytes sk) (fst m) (snd m) else k_bytes sk).
+
+  Lemma fold_span_records (only : bool) : forall (ms : list (nat * nat)) (w : wtr),
+    w_out (fold_left (fun (w : wtr) (m : nat * nat) =>
+             write_line env (if only then sub (k_bytes sk) (fst m) (snd m) else k_bytes sk)
+               (write_prelude cfg path sk (k_off sk + fst m) (k_lnum sk) (Some (fst m + 1)) w)) ms w)
+    = w_out w ++ concat (map (span_record only) ms).
+  Proof.
+    induction ms as [|m ms IH]; intro w; cbn [fold_left map concat]; [now rewrite app_nil_r|].
+    rewrite IH, write_line_layout, write_prelude_layout. unfold span_record. now rewrite <- !app_assoc.
+  Qed.
+
+  Theorem sink_slow_only_matching_layout w : st_only_matching cfg = true ->
+    w_out (sink_slow cfg env path sk w) = w_out w ++ concat (map (span_record true) (k_matches sk)).
+  Proof. intro H. unfold sink_slow. rewrite H. apply (fold_span_records true). Qed.
+
+  Theorem sink_slow_per_match_layout w : st_only_matching cfg = false -> st_per_match cfg = true ->
+    w_out (sink_slow cfg env path sk w) = w_out w ++ concat (map (span_record false) (k_matches sk)).
+  Proof. intros H1 H2. unfold sink_slow. rewrite H1, H2. apply (fold_span_records false). Qed.
+End PerMatch.
+
+(* write_colored_matches (colours off): whatever the recorded spans are, exactly the line is written *)
+Lemma firstn_split {A} (l : list A) a c : firstn a l ++ firstn c (skipn a l) = firstn (a + c) l.
+Proof.
+  revert l. induction a as [|a IH]; intro l; [reflexivity|]. destruct l as [|x l]; cbn [firstn skipn Nat.add app].
+  - now rewrite firstn_nil.
+  - now rewrite IH.
+Qed.
+Lemma skipn_add {A} (l : list A) : forall a b, skipn a (skipn b l) = skipn (b + a) l.
+Proof.
+  intros a b. revert l. induction b as [|b IH]; intro l; [reflexivity|].
+  destruct l as [|x l]; [now rewrite !skipn_nil|]. cbn [skipn Nat.add]. apply IH.
+Qed.
+Lemma sub_split {A} (l : list A) i j k : i <= j -> j <= k -> sub l i j ++ sub l j k = sub l i k.
+Proof.
+  intros H1 H2. unfold sub. replace (skipn j l) with (skipn (j - i) (skipn i l)).
+  - rewrite firstn_split. f_equal. lia.
+  - rewrite skipn_add. f_equal. lia.
+Qed.
+Lemma sub_empty {A} (l : list A) i : sub l i i = [].
+Proof. unfold sub. now rewrite Nat.sub_diag. Qed.
+
+Lemma wcm_loop_out bytes matches : forall fuel ls le midx w,
+  ls <= le -> midx < length matches -> (le - ls) + (length matches - midx) < fuel ->
+  w_out (snd (wcm_loop fuel bytes ls le matches midx w)) = w_out w ++ sub bytes ls le /\
+  fst (wcm_loop fuel bytes ls le matches midx w) < length matches.
+Proof.
+  induction fuel as [|fuel IH]; intros ls le midx w Hle Hm Hf; [lia|].
+  cbn [wcm_loop]. destruct (Nat.eqb_spec ls le) as [->|Hne].
+  - cbn [fst snd]. rewrite sub_empty, app_nil_r. auto.
+  - destruct (nth_span matches midx) as [ms me].
+    destruct (Nat.leb_spec me ls).
+    + destruct (Nat.ltb_spec (midx + 1) (length matches)).
+      * apply IH; lia.
+      * cbn [fst snd]. auto.
+    + destruct (Nat.ltb_spec ls ms).
+      * destruct (IH (Nat.min le ms) le midx (write (sub bytes ls (Nat.min le ms)) w)) as [E1 E2]; [lia|lia|lia|].
+        rewrite E1. split; [|exact E2]. cbn [write w_out]. rewrite <- app_assoc, sub_split by lia. reflexivity.
+      * destruct (IH (Nat.min le me) le midx (write (sub bytes ls (Nat.min le me)) w)) as [E1 E2]; [lia|lia|lia|].
+        rewrite E1. split; [|exact E2]. cbn [write w_out]. rewrite <- app_assoc, sub_split by lia. reflexivity.
+Qed.
+
+Section MultiLineSlow.
+  Variable cfg : stdconfig.
+  Variable env : senv.
+  Variable path : option bytes.
+  Variable sk : sunk.
+
+  Lemma write_colored_matches_out ls le midx w :
+    ls <= trim_line_terminator (e_lt env) (k_bytes sk) ls le -> midx < length (k_matches sk) ->
+    w_out (snd (write_colored_matches env (k_bytes sk) ls le (k_matches sk) midx w))
+    = w_out w ++ sub (k_bytes sk) ls (trim_line_terminator (e_lt env) (k_bytes sk) ls le) /\
+    fst (write_colored_matches env (k_bytes sk) ls le (k_matches sk) midx w) < length (k_matches sk).
+  Proof.
+    intros Hle Hm. unfold write_colored_matches, lt.
+    destruct (k_matches sk) as [|m0 ms] eqn:Em; [cbn in Hm; lia|]. cbn [is_empty_list].
+    apply wcm_loop_out; [exact Hle|exact Hm|lia].
+  Qed.
+
+  (* one record per line of the block: the line without its terminator, then the searcher's terminator;
+     every line carries the column of the block's first match (pinned by the suite: column_number_multi_line) *)
+  Fixpoint slow_block_records (spans : list (nat * nat)) (count : nat) : bytes :=
+    match spans with
+    | [] => []
+    | (s, e) :: r =>
+      prelude_spec cfg path (separator_field cfg sk) (k_off sk + s) (option_map (fun n => n + count) (k_lnum sk))
+                   (Some (fst (nth_span (k_matches sk) 0) + 1))
+      ++ sub (k_bytes sk) s (trim_line_terminator (e_lt env) (k_bytes sk) s e) ++ lt_bytes (e_lt env)
+      ++ slow_block_records r (S count)
+    end.
+
+  Lemma sink_slow_ml_loop_layout : forall spans count midx w,
+    Forall (fun se => fst se <= trim_line_terminator (e_lt env) (k_bytes sk) (fst se) (snd se)) spans ->
+    midx < length (k_matches sk) ->
+    w_out (sink_slow_ml_loop cfg env path sk spans count midx w) = w_out w ++ slow_block_records spans count.
+  Proof.
+    induction spans as [|[s e] r IH]; intros count midx w Hall Hm; cbn [sink_slow_ml_loop slow_block_records].
+    - now rewrite app_nil_r.
+    - inversion Hall as [|? ? Hse Hr]; subst. cbn [fst snd] in Hse.
+      destruct (write_colored_matches_out s e midx
+                  (write_prelude cfg path sk (k_off sk + s) (option_map (fun n => n + count) (k_lnum sk))
+                     (Some (fst (nth_span (k_matches sk) 0) + 1)) w) Hse Hm) as [E1 E2].
+      destruct (write_colored_matches env (k_bytes sk) s e (k_matches sk) midx _) as [midx' w'] eqn:Ew.
+      cbn [fst snd] in E1, E2. rewrite IH by assumption.
+      unfold write_line_term, lt. cbn [write w_out]. rewrite E1, write_prelude_layout. now rewrite <- !app_assoc.
+  Qed.
+
+  Theorem sink_slow_multi_line_layout w :
+    st_only_matching cfg = false -> st_per_match cfg = false -> k_matches sk <> [] ->
+    Forall (fun se => fst se <= trim_line_terminator (e_lt env) (k_bytes sk) (fst se) (snd se))
+           (line_spans (lt_byte (e_lt env)) (k_bytes sk)) ->
+    w_out (sink_slow_multi_line cfg env path sk w)
+    = w_out w ++ slow_block_records (line_spans (lt_byte (e_lt env)) (k_bytes sk)) 0.
+  Proof.
+    intros H1 H2 Hne Hall. unfold sink_slow_multi_line. rewrite H1, H2. unfold lt.
+    apply sink_slow_ml_loop_layout; [exact Hall|]. destruct (k_matches sk); [congruence|cbn; lia].
+  Qed.
+End MultiLineSlow.
